@@ -69,10 +69,14 @@ void string_to_hw_address(const string& hw_addr, uint8_t* output, size_t output_
     unsigned i = 0;
     size_t count = 0;
     uint8_t tmp;
-    while (i < hw_addr.size() && count < output_size) {
-        const unsigned end = i+2;
+    while (i < hw_addr.size()) {
+        // There can't be anything after the last group
+        if (count == output_size) {
+            throw invalid_address();
+        }
+        const unsigned start = i, end = i+2;
         tmp = 0;
-        while (i < end) {
+        while (i < end && i < hw_addr.size()) {
             if (hw_addr[i] >= 'a' && hw_addr[i] <= 'f') {
                 tmp = (tmp << 4) | (hw_addr[i] - 'a' + 10);
             }
@@ -90,10 +94,15 @@ void string_to_hw_address(const string& hw_addr, uint8_t* output, size_t output_
             }
             i++;
         }
+        // Groups contain at least one digit
+        if (i == start) {
+            throw invalid_address();
+        }
         *(output++) = tmp;
         count++;
         if (i < hw_addr.size()) {
-            if (hw_addr[i] == ':') {
+            // A separator is always followed by another group
+            if (hw_addr[i] == ':' && i + 1 < hw_addr.size()) {
                 i++;
             }
             else {
